@@ -236,6 +236,27 @@ def c05(ctx):
                 ok = is_lin(v) and (any(cval(x['val']) == 0 and x['off'] == v for x in wr_) or any(x['off'].addc(1) == v for x in wr_)
                                     or (not v.is_const() and any(x['off'].terms == v.terms for x in wr_)))
                 ctx.check('length', ok, _ob_site(e), 'the length handed to the variable callback (%s) is not the decoded length' % (v,))
+    # every successful return of a byte decoder has set the reported length on that very path
+    from .interp import trace_paths as _tp
+    n_succ = 0
+    for t in ts:
+        for seq in _tp(t.t['trace'], limit=20000, keep=lambda e: (e['k'] in ('enter', 'exit') and e.get('name') in decoders) or (e['k'] == 'st' and e['loc'] == ('S', 'write_size'))):
+            inside = None
+            stored = False
+            for e in seq:
+                if e['k'] == 'enter':
+                    inside, stored = e['name'], False
+                elif e['k'] == 'st' and inside:
+                    stored = True
+                elif e['k'] == 'exit' and inside == e['name']:
+                    r = e.get('ret')
+                    if is_lin(r) and t.raw.facts.lower(r) >= 0:
+                        n_succ += 1
+                        ctx.check('length', stored, 'src/cat.c:%s' % e['name'],
+                                  'the %s decoder returns success without reporting the decoded length (a stale size reaches the variable callback)' % e['name'])
+                    inside = None
+    if n_succ == 0:
+        raise AnalysisBroken('no successful decoder return found')
     _grammar(ctx, ('hexbuf', 'string'))
     return ctx
 
